@@ -3,6 +3,7 @@ package main
 import (
 	"os"
 	"runtime"
+	"runtime/debug"
 	"sort"
 	"strings"
 	"sync"
@@ -131,13 +132,7 @@ func runCase(c *Case) *Result {
 	f := c.Faults
 	res.FaultFree = f.Error+f.Panic+f.Slow+f.Reenter+f.Abort+f.Goexit == 0
 	zzsim.SetMapSalt(c.MapSalt)
-	zzsim.SetPoolDrop(!c.PoolsRetain)
-	if c.PoolsRetain {
-		// start from empty pools whatever this process ran before (a pool is
-		// emptied by two collections: primary to victim cache, victim to nothing)
-		runtime.GC()
-		runtime.GC()
-	}
+
 
 	var ref, sh *World
 	var wantRaw, gotRaw [][]lazyOut
@@ -156,15 +151,24 @@ func runCase(c *Case) *Result {
 			return
 		}
 		defer func() { refCache.c, refCache.ref, refCache.want, refCache.solo = key, ref, wantRaw, solo }()
+		// "The same call run alone": every task's program is executed by itself
+		// on a world of its own (parsed afresh), with pools that retain nothing,
+		// so that nothing one task leaves behind — in the tree, in a lock, in a
+		// pool — can reach another task's reference outcome.
 		zzsim.SetMode(zzsim.ModeOff)
+		zzsim.SetPoolDrop(true)
 		ref = buildWorld(c, nil, true)
-		ref.rs.solo = true
 		wantRaw = newRaw(c)
 		for t := range c.Tasks {
-			ref.rs.soloTask = t
+			w := ref
+			if t > 0 {
+				w = buildWorld(c, ref.cat, true)
+			}
+			w.rs.solo = true
+			w.rs.soloTask = t
 			zzsim.SetMode(zzsim.ModeCount)
 			done := make(chan struct{})
-			prog := ref.program(t, wantRaw)
+			prog := w.program(t, wantRaw)
 			go func() {
 				defer close(done)
 				prog()
@@ -177,6 +181,16 @@ func runCase(c *Case) *Result {
 	}
 	concurrent := func(cat *catalog, est uint64) {
 		zzsim.SetMode(zzsim.ModeOff)
+		zzsim.SetPoolDrop(!c.PoolsRetain)
+		if c.PoolsRetain {
+			// start from empty pools whatever this process ran before (two
+			// collections empty a pool: primary to victim cache, victim to
+			// nothing), and keep the collector from emptying them at a moment of
+			// its own choosing during the run
+			runtime.GC()
+			runtime.GC()
+			defer debug.SetGCPercent(debug.SetGCPercent(-1))
+		}
 		sh = buildWorld(c, cat, c.Pretouch)
 		gotRaw = newRaw(c)
 		fns := make([]func(), len(c.Tasks))
